@@ -38,11 +38,11 @@ ASSUMPTIONS = ['defaults of the enumerated parameters are type-correct for their
 BOUNDS = {
     'quick': 'singles: parameter lists of <= 2 positional from 7 shapes [Any, A, B, Lazy, A?, A=default, C] x 11 extensions '
              '[*r, **kw, kW optional/required, kW with **kw, hidden Engine at 0 / Context at 1 / Engine at 2, combinations] x 3 kinds x 249 calls, both paths; '
-             'pairs: 48 parameter lists squared (ext/function kinds) x {same, child, grandchild, exclusive} x 165 calls '
+             'pairs: 49 parameter lists squared (ext/function kinds) x {same, child, grandchild, exclusive} x 133 calls '
              '(text path for the same-layer families); kind mixing: 6 lists squared x 8 kind pairs x 4 layerings; '
              '@no_kwargs: 9 lists, flags (T), (T,T), (T,F), (F,T) x 3 layerings; triples: 7 lists cubed x 5 layerings',
     'thorough': 'singles: 10 shapes x 17 extensions (also typed/lazy *r, typed **kw, lazy kW) x 3 kinds x 349 calls '
-                '(constants 1, \'k\', kw); pairs: 156 lists squared x 4 layerings x 205 calls; kind mixing and @no_kwargs on 16 lists; '
+                '(constants 1, \'k\', kw); pairs: 157 lists squared x 4 layerings x 173 calls; kind mixing and @no_kwargs on 16 lists; '
                 'triples: 22 lists cubed x 5 layerings',
 }
 
@@ -181,9 +181,9 @@ def call_set(tier, size='full'):
         out.append((('val', recv), (), ()))
         for a in slots:
             out.append((('val', recv), (a,), ()))
-    for recv in ('a', 'c'):
-        for args in ((), (V('a'),), (SKIP,), (V('b'), V('a'))):
-            for name in names[:3]:
+    for recv in ('a', 'b'):
+        for args in ((), (V('a'),)) + (((SKIP,), (V('b'), V('a'))) if size == 'full' else ()):
+            for name in ('y', 'kW') + (('x',) if size == 'full' else ()):
                 for v in (V('a'), K(None)):
                     out.append((('val', recv), args, ((name, v),)))
     return out
@@ -302,7 +302,8 @@ def run_family(res, fid, layers, calls, text=True):
             res.transitions += 1
             if exp[0][1] != M.UNKNOWN:
                 res.nontrivial += 1
-            res.outcomes['%s %s' % (path, outcome_class(exp[0]))] += 1
+            res.outcomes['%s %s%s' % (path, outcome_class(exp[0]),
+                                      ' after evaluating arguments' if exp[0][0] == 'error' and exp[1] else '')] += 1
             if obs != exp:
                 res.fail(classify(layers, call, path, obs, exp),
                          {'layers': layers, 'call': call, 'path': path,
